@@ -207,6 +207,81 @@ func entityAnnotations(r *core.Run, info *types.Info) {
 			return true
 		})
 	})
+	// every service the expansion generates carries the entity annotation it builds — not options
+	// taken over from the declaration, which would leave the service without its entity link
+	core.AllFuncDecls(pk, func(fd *ast.FuncDecl) {
+		if core.RecvName(fd) != "entityNode" {
+			return
+		}
+		ast.Inspect(fd.Body, func(n ast.Node) bool {
+			cl, ok := n.(*ast.CompositeLit)
+			if !ok || !strings.HasSuffix(core.TypeStr(info.TypeOf(cl)), "sourcedef_j5pb.Service") {
+				return true
+			}
+			var optVal ast.Expr
+			for _, e := range cl.Elts {
+				if kv, ok := e.(*ast.KeyValueExpr); ok && core.ExprStr(kv.Key) == "Options" {
+					optVal = kv.Value
+				}
+			}
+			o := r.Add("R-CONST/entity", fmt.Sprintf("sourcewalk.%s | generated service options", core.FuncName(fd)), cl.Pos(), "generated service carries the entity annotation")
+			isStateLit := func(e ast.Expr) bool {
+				u, ok := core.Unparen(e).(*ast.UnaryExpr)
+				if !ok {
+					return false
+				}
+				lit, ok := u.X.(*ast.CompositeLit)
+				if !ok || !strings.HasSuffix(core.TypeStr(info.TypeOf(lit)), "ext_j5pb.ServiceOptions") {
+					return false
+				}
+				state := false
+				ast.Inspect(lit, func(m ast.Node) bool {
+					if c2, ok := m.(*ast.CompositeLit); ok && strings.Contains(core.TypeStr(info.TypeOf(c2)), "ServiceOptions_State") {
+						state = true
+					}
+					return true
+				})
+				return state
+			}
+			switch {
+			case optVal == nil:
+				o.Fail("the generated service has no options: it is not linked to its entity")
+			case isStateLit(optVal):
+				o.Auto("options are the state annotation built here")
+			default:
+				// a local: every value it is given must be the annotation built here
+				bad := ""
+				if id, ok := core.Unparen(optVal).(*ast.Ident); ok {
+					obj := info.Uses[id]
+					defs := 0
+					ast.Inspect(fd.Body, func(m ast.Node) bool {
+						if as, ok := m.(*ast.AssignStmt); ok && len(as.Lhs) == len(as.Rhs) {
+							for i, l := range as.Lhs {
+								if li, ok := l.(*ast.Ident); ok && obj != nil && (info.Defs[li] == obj || info.Uses[li] == obj) {
+									defs++
+									if !isStateLit(as.Rhs[i]) {
+										bad = core.ExprStr(as.Rhs[i])
+									}
+								}
+							}
+						}
+						return true
+					})
+					if defs == 0 {
+						bad = "an unassigned variable"
+					}
+				} else {
+					bad = core.ExprStr(optVal)
+				}
+				if bad == "" {
+					o.Auto("options are the state annotation built here")
+				} else {
+					o.Fail("the generated service's options can be %s instead of the state annotation built by the expansion: such a service carries no entity annotation and is not attached to its entity downstream", bad)
+				}
+			}
+			return true
+		})
+	})
 	for m := range wantPart {
 		if !seenPart[m] {
 			r.Add("R-CONST/entity", "sourcewalk.entityNode."+m+" | EntityObject.Part", 0, "part annotation of "+m).Fail("%s no longer annotates its schema with an entity part", m)
@@ -336,8 +411,19 @@ func entityEvents(r *core.Run, info *types.Info) {
 					return true
 				})
 			case "Name":
-				if strings.HasPrefix(core.ExprStr(x.Value), "strcase.ToLowerCamel(") && strings.Contains(core.ExprStr(x.Value), core.ExprStr(loop.Value)) {
-					nameOK = true
+				// lowerCamel of something taken from the event in hand (directly or through a local)
+				if c, ok := core.Unparen(x.Value).(*ast.CallExpr); ok && strings.HasSuffix(core.CalleeName(info, c), "strcase.ToLowerCamel") && len(c.Args) == 1 {
+					arg := c.Args[0]
+					for i := 0; i < 3; i++ {
+						if a := aliasExprOf(info, fd, arg); a != nil {
+							arg = a
+						}
+					}
+					if lv, ok := loop.Value.(*ast.Ident); ok {
+						if root := rootIdent(arg); root != nil && info.Uses[root] != nil && info.Uses[root] == info.Defs[lv] {
+							nameOK = true
+						}
+					}
 				}
 			}
 		}
@@ -366,12 +452,15 @@ func entityPathKeys(r *core.Run, info *types.Info) {
 		return
 	}
 	var loop *ast.RangeStmt
-	ast.Inspect(fd.Body, func(n ast.Node) bool {
-		if rs, ok := n.(*ast.RangeStmt); ok && loop == nil && strings.HasSuffix(core.ExprStr(rs.X), ".Keys") {
-			loop = rs
-		}
-		return true
-	})
+	// in acceptQuery or in a same-package helper it calls (the key classification may be factored out)
+	if wpk := r.P.Pkg(walkRel); wpk != nil {
+		core.InspectTree(wpk, fd.Body, func(n ast.Node) bool {
+			if rs, ok := n.(*ast.RangeStmt); ok && loop == nil && strings.HasSuffix(core.ExprStr(rs.X), ".Keys") {
+				loop = rs
+			}
+			return true
+		})
+	}
 	o := r.Add("R-FLOW/pathkeys", "sourcewalk.entityNode.acceptQuery | key loop", fd.Pos(), "path parameter construction")
 	if loop == nil {
 		o.Fail("no range over the entity keys")
